@@ -193,11 +193,11 @@ def check_C11(o, tier):
     check_corpus(o, prof, "C11", C11Monitors())
     thorough = tier == "thorough"
     # all schedules of the curated cases (bounded per case), both stores
-    forced(o, prof, "mem", "curated", 0, 4000 if thorough else 120, "conc-curated-mem")
-    forced(o, prof, "dir", "curated", 0, 400 if thorough else 12, "conc-curated-dir")
+    forced(o, prof, "mem", "curated", 0, 4000 if thorough else 300, "conc-curated-mem")
+    forced(o, prof, "dir", "curated", 0, 400 if thorough else 20, "conc-curated-dir")
     # random cases, random schedules
-    forced(o, prof, "mem", "random", 12000 if thorough else 1500, 60, "conc-random-mem")
-    forced(o, prof, "dir", "random", 1500 if thorough else 150, 60, "conc-random-dir")
+    forced(o, prof, "mem", "random", 12000 if thorough else 2500, 60, "conc-random-mem")
+    forced(o, prof, "dir", "random", 1500 if thorough else 200, 60, "conc-random-dir")
     prof.cleanup()
     # free running
     stress(o, False, "mem", 3000 if thorough else 150, "stress-mem")
